@@ -1,13 +1,23 @@
-(* WinRectSetProofs.v -- region-level ("covered") correctness of the rectangle-set model
-   WinRectSet.v (a fuel-based transliteration of src/rectset.c) and of the helpers
-   rs_clip / rs_sub_vis / shift_damage of WinDefs.v.
+(* WinRectSetProofs.v -- region-level ("covered") correctness of the window layer's
+   rectangle set (WinRectSet.v = wrappers around the C05 model RectSetDefs.v, repaired code
+   stale = false) and of the helpers rs_clip / rs_sub_vis / shift_damage of WinDefs.v.
+
+   Part A (sections 0-7): facts that need only [all_nonempty] of the set (no sortedness, no
+             separation), proved here directly on RectSetDefs.rs_scan / rs_add_at /
+             rs_subtract_loop / rs_contains_scan.
+   Part B (section 8): the exact facts under the C05 invariant RectSetSpec.Inv, obtained
+             from the C05 theorems (rs_add_ok, rs_subtract_ok, rs_translate_ok, ...).
 
    Every theorem is stated for ANY fuel for which the result is [Some _].
    No axioms; stdlib + lia only. *)
 From Coq Require Import ZArith List Bool Lia ZifyBool.
 From Tickit Require Import RectDefs RectProofs WinRectSet WinDefs.
+From Tickit Require RectSetDefs RectSetSpec RectSetProofs RectSetSubtract RectSetQueries
+  RectSetHistory.
 Import ListNotations.
 Local Open Scope Z_scope.
+
+Notation Inv := RectSetSpec.Inv.
 
 (* ------------------------------------------------------------------------------------ *)
 (* 0. small helpers                                                                      *)
@@ -49,19 +59,20 @@ Proof. intros Hin Hc. exists x. split; assumption. Qed.
 
 Lemma rs_insert_covered s r p : covered (rs_insert s r) p <-> cell_in r p \/ covered s p.
 Proof.
-  induction s as [|x s IH]; cbn [rs_insert].
+  unfold rs_insert.
+  induction s as [|x s IH]; cbn [RectSetDefs.rs_insert].
   - rewrite covered_cons. tauto.
-  - destruct (cmprect_gt x r) eqn:E.
+  - destruct (RectSetDefs.cmprect x r >? 0) eqn:E.
     + rewrite covered_cons. tauto.
     + rewrite !covered_cons, IH. tauto.
 Qed.
 
 Lemma rs_insert_nonempty s r : all_nonempty s -> nonempty r -> all_nonempty (rs_insert s r).
 Proof.
-  unfold all_nonempty. intros Hs Hr.
-  induction s as [|x s IH]; cbn [rs_insert].
+  unfold all_nonempty, rs_insert. intros Hs Hr.
+  induction s as [|x s IH]; cbn [RectSetDefs.rs_insert].
   - constructor; [exact Hr|constructor].
-  - destruct (cmprect_gt x r) eqn:E.
+  - destruct (RectSetDefs.cmprect x r >? 0) eqn:E.
     + constructor; assumption.
     + inversion Hs as [|x' s' Hx Hs']; subst. constructor; [exact Hx|apply IH; exact Hs'].
 Qed.
@@ -69,9 +80,10 @@ Qed.
 Lemma rs_delete_covered_nth : forall s i x, nth_error s i = Some x ->
   forall p, covered s p <-> cell_in x p \/ covered (rs_delete s i) p.
 Proof.
+  unfold rs_delete.
   induction s as [|y s IH]; intros i x Hn p.
   - destruct i; discriminate.
-  - destruct i as [|j]; cbn [rs_delete nth_error] in *.
+  - destruct i as [|j]; cbn [RectSetDefs.rs_delete nth_error] in *.
     + injection Hn as ->. apply covered_cons.
     + rewrite !covered_cons, (IH j x Hn p). tauto.
 Qed.
@@ -85,17 +97,18 @@ Proof.
     + intros [H|H]; [left; exists x; auto|right; exact H].
     + intros [[x' [[= <-] H]]|H]; [left; exact H|right; exact H].
   - assert (Hd : rs_delete s i = s).
-    { revert i Hn. induction s as [|y s IH]; intros i Hn; [reflexivity|].
-      destruct i as [|j]; cbn [nth_error rs_delete] in *; [discriminate|].
+    { unfold rs_delete. revert i Hn. induction s as [|y s IH]; intros i Hn; [reflexivity|].
+      destruct i as [|j]; cbn [nth_error RectSetDefs.rs_delete] in *; [discriminate|].
       rewrite (IH j Hn). reflexivity. }
     rewrite Hd. split; [tauto|]. intros [[x [Hx _]]|H]; [discriminate|exact H].
 Qed.
 
 Lemma rs_delete_incl : forall s i x, In x (rs_delete s i) -> In x s.
 Proof.
+  unfold rs_delete.
   induction s as [|y s IH]; intros i x Hin.
   - destruct i; exact Hin.
-  - destruct i as [|j]; cbn [rs_delete] in Hin.
+  - destruct i as [|j]; cbn [RectSetDefs.rs_delete] in Hin.
     + right. exact Hin.
     + destruct Hin as [->|Hin]; [left; reflexivity|right; eapply IH; exact Hin].
 Qed.
@@ -107,7 +120,8 @@ Proof.
 Qed.
 
 (* ------------------------------------------------------------------------------------ *)
-(* generic fold lemma: a step that adds the region [G x] for each list element x         *)
+(* generic fold lemma: a step that keeps an invariant [I] of the set and adds the region *)
+(* [G x] for each list element x                                                         *)
 
 Lemma fold_left_none {A} (step : option rectset -> A -> option rectset) :
   (forall x, step None x = None) -> forall L, fold_left step L None = None.
@@ -116,13 +130,13 @@ Proof.
   rewrite Hnone. exact IH.
 Qed.
 
-Lemma fold_step_ok {A} (step : option rectset -> A -> option rectset)
+Lemma fold_step_ok {A} (I : rectset -> Prop) (step : option rectset -> A -> option rectset)
       (G : A -> cell -> Prop) (P : A -> Prop) :
   (forall x, step None x = None) ->
-  (forall s x s', all_nonempty s -> P x -> step (Some s) x = Some s' ->
-                  all_nonempty s' /\ forall p, covered s' p <-> covered s p \/ G x p) ->
-  forall L s s', all_nonempty s -> Forall P L -> fold_left step L (Some s) = Some s' ->
-    all_nonempty s' /\ forall p, covered s' p <-> covered s p \/ exists x, In x L /\ G x p.
+  (forall s x s', I s -> P x -> step (Some s) x = Some s' ->
+                  I s' /\ forall p, covered s' p <-> covered s p \/ G x p) ->
+  forall L s s', I s -> Forall P L -> fold_left step L (Some s) = Some s' ->
+    I s' /\ forall p, covered s' p <-> covered s p \/ exists x, In x L /\ G x p.
 Proof.
   intros Hnone Hstep L.
   induction L as [|x L IH]; intros s s' Hne HP H; cbn [fold_left] in H.
@@ -144,8 +158,11 @@ Proof.
     + rewrite (fold_left_none step Hnone L) in H. discriminate.
 Qed.
 
+Lemma forall_true {A} (l : list A) : Forall (fun _ => True) l.
+Proof. induction l; constructor; auto. Qed.
+
 (* ------------------------------------------------------------------------------------ *)
-(* 2. rs_scan / rs_add_b / rs_add / rs_add_list                                          *)
+(* 2. rs_scan / rs_add_at / rs_add / rs_add_list  (only all_nonempty needed)             *)
 
 Lemma stretch_ok x t l b r :
   nonempty x -> t < b -> l < r ->
@@ -176,22 +193,23 @@ Proof.
   intros Hle Hn. replace (i - i0)%nat with (S (i - S i0)) by lia. exact Hn.
 Qed.
 
-Definition scan_post (s : rectset) (i0 : nat) (t l b r : Z) (res : scan_res) : Prop :=
+Definition scan_post (s : rectset) (i0 : nat) (t b l r : Z) (res : RectSetDefs.scan_result)
+  : Prop :=
   match res with
-  | ScanInsert => True
-  | ScanReturn => exists x, In x s /\ r_contains x (init_bounded t l b r) = true
-  | ScanStretch i t' l' b' r' =>
+  | RectSetDefs.ScInsert => True
+  | RectSetDefs.ScReturn => exists x, In x s /\ r_contains x (init_bounded t l b r) = true
+  | RectSetDefs.ScMerge i t' b' l' r' =>
       exists x, (i0 <= i)%nat /\ nth_error s (i - i0) = Some x /\
                 t' < b' /\ l' < r' /\
                 forall p, cell_in (init_bounded t' l' b' r') p <->
                           cell_in x p \/ cell_in (init_bounded t l b r) p
-  | ScanSplit i x => (i0 <= i)%nat /\ nth_error s (i - i0) = Some x
+  | RectSetDefs.ScSplit i x => (i0 <= i)%nat /\ nth_error s (i - i0) = Some x
   end.
 
-Lemma scan_post_cons x0 rest i0 t l b r res :
-  scan_post rest (S i0) t l b r res -> scan_post (x0 :: rest) i0 t l b r res.
+Lemma scan_post_cons x0 rest i0 t b l r res :
+  scan_post rest (S i0) t b l r res -> scan_post (x0 :: rest) i0 t b l r res.
 Proof.
-  destruct res as [| |i t' l' b' r'|i x]; unfold scan_post.
+  destruct res as [| |i t' b' l' r'|i x]; unfold scan_post.
   - tauto.
   - intros [x [Hin Hc]]. exists x. split; [right; exact Hin|exact Hc].
   - intros [x [Hle [Hn Hrest]]]. exists x. split; [lia|].
@@ -199,11 +217,11 @@ Proof.
   - intros [Hle Hn]. split; [lia|apply nth_shift; assumption].
 Qed.
 
-Lemma rs_scan_spec : forall s i0 t l b r,
+Lemma rs_scan_spec : forall s i0 t b l r,
   all_nonempty s -> t < b -> l < r ->
-  scan_post s i0 t l b r (rs_scan s i0 t l b r).
+  scan_post s i0 t b l r (RectSetDefs.rs_scan (init_bounded t l b r) t b l r s i0).
 Proof.
-  induction s as [|x rest IH]; intros i0 t l b r Hne Htb Hlr; cbn [rs_scan].
+  induction s as [|x rest IH]; intros i0 t b l r Hne Htb Hlr; cbn [RectSetDefs.rs_scan].
   - exact I.
   - inversion Hne as [|x' s' Hx Hrest]; subst.
     destruct (b <? top x) eqn:E1; [exact I|].
@@ -220,21 +238,22 @@ Proof.
     split; [lia|]. rewrite Nat.sub_diag. reflexivity.
 Qed.
 
-Theorem rs_add_b_covered : forall fuel s t l b r s',
-  all_nonempty s -> t < b -> l < r -> rs_add_b fuel s t l b r = Some s' ->
+Theorem rs_add_at_covered : forall fuel s rect t b l r s',
+  all_nonempty s -> t < b -> l < r ->
+  RectSetDefs.rs_add_at fuel false s rect t b l r = Some s' ->
   all_nonempty s' /\
   forall p, covered s' p <-> covered s p \/ cell_in (init_bounded t l b r) p.
 Proof.
-  induction fuel as [|f IH]; intros s t l b r s' Hne Htb Hlr H; [discriminate|].
-  cbn [rs_add_b] in H.
-  pose proof (rs_scan_spec s O t l b r Hne Htb Hlr) as Hscan.
+  induction fuel as [|f IH]; intros s rect t b l r s' Hne Htb Hlr H; [discriminate|].
+  cbn [RectSetDefs.rs_add_at] in H.
+  pose proof (rs_scan_spec s O t b l r Hne Htb Hlr) as Hscan.
   pose proof (init_bounded_nonempty t l b r Htb Hlr) as Hcur.
-  destruct (rs_scan s 0 t l b r) as [| |i t' l' b' r'|i x] eqn:Escan;
-    unfold scan_post in Hscan.
+  destruct (RectSetDefs.rs_scan (init_bounded t l b r) t b l r s 0)
+    as [| |i t' b' l' r'|i x] eqn:Escan; unfold scan_post in Hscan.
   - (* insert *)
     injection H as <-. split.
-    + apply rs_insert_nonempty; assumption.
-    + intros p. rewrite rs_insert_covered. tauto.
+    + apply (rs_insert_nonempty s _ Hne Hcur).
+    + intros p. rewrite (rs_insert_covered s _ p). tauto.
   - (* already covered *)
     injection H as <-. split; [exact Hne|].
     destruct Hscan as [x [Hin Hc]].
@@ -243,39 +262,40 @@ Proof.
   - (* stretch *)
     destruct Hscan as [x [_ [Hn [Htb' [Hlr' Hbox]]]]].
     rewrite Nat.sub_0_r in Hn.
-    destruct (IH _ _ _ _ _ _ (rs_delete_nonempty s i Hne) Htb' Hlr' H) as [Hne' Hcov'].
+    destruct (IH _ _ _ _ _ _ _ (rs_delete_nonempty s i Hne) Htb' Hlr' H) as [Hne' Hcov'].
     split; [exact Hne'|]. intros p.
-    rewrite Hcov', Hbox, (rs_delete_covered_nth s i x Hn p). tauto.
+    rewrite Hcov', Hbox, (rs_delete_covered_nth s i x Hn p). unfold rs_delete. tauto.
   - (* split *)
     destruct Hscan as [_ Hn]. rewrite Nat.sub_0_r in Hn.
     pose proof (all_nonempty_nth s i x Hne Hn) as Hx.
     destruct (add_ok x (init_bounded t l b r) Hx Hcur) as [_ [HneL [_ HcovL]]].
-    pose proof (fold_step_ok
-      (fun acc p => match acc with
-                    | Some s' => rs_add_b f s' (top p) (left p) (bottom p) (right p)
-                    | None => None
-                    end)
-      (fun q p => cell_in q p) nonempty) as Hfold.
-    cbv beta in Hfold.
-    destruct (Hfold (fun _ => eq_refl)) with (3 := HneL) (4 := H) as [Hne' Hcov'].
-    + intros s0 q s0' Hs0 Hq Hadd.
+    assert (Hstep : forall s0 q s0', all_nonempty s0 -> nonempty q ->
+              RectSetDefs.rs_add_at f false s0 q (top q) (bottom q) (left q) (right q) = Some s0' ->
+              all_nonempty s0' /\ forall p, covered s0' p <-> covered s0 p \/ cell_in q p).
+    { intros s0 q s0' Hs0 Hq Hadd.
       destruct (nonempty_bounds q Hq) as [Hq1 Hq2].
-      destruct (IH _ _ _ _ _ _ Hs0 Hq1 Hq2 Hadd) as [Ha Hb].
-      split; [exact Ha|]. intros p. rewrite Hb, init_bounded_self_cell. tauto.
-    + apply rs_delete_nonempty. exact Hne.
-    + split; [exact Hne'|]. intros p.
-      rewrite Hcov'. change (exists x0, In x0 (r_add x (init_bounded t l b r)) /\ cell_in x0 p)
-        with (covered (r_add x (init_bounded t l b r)) p).
-      rewrite HcovL, (rs_delete_covered_nth s i x Hn p). tauto.
+      destruct (IH _ _ _ _ _ _ _ Hs0 Hq1 Hq2 Hadd) as [Ha Hb].
+      split; [exact Ha|]. intros p. rewrite Hb, init_bounded_self_cell. tauto. }
+    destruct (fold_step_ok all_nonempty
+      (fun acc p => match acc with
+                    | None => None
+                    | Some s' => RectSetDefs.rs_add_at f false s' p (top p) (bottom p) (left p) (right p)
+                    end)
+      (fun q p => cell_in q p) nonempty (fun _ => eq_refl) Hstep
+      _ _ _ (rs_delete_nonempty s i Hne) HneL H) as [Hne' Hcov'].
+    split; [exact Hne'|]. intros p.
+    rewrite Hcov'. change (exists x0, In x0 (r_add x (init_bounded t l b r)) /\ cell_in x0 p)
+      with (covered (r_add x (init_bounded t l b r)) p).
+    rewrite HcovL, (rs_delete_covered_nth s i x Hn p). unfold rs_delete. tauto.
 Qed.
 
 Theorem rs_add_covered : forall fuel s q s',
   all_nonempty s -> nonempty q -> rs_add fuel s q = Some s' ->
   all_nonempty s' /\ forall p, covered s' p <-> covered s p \/ cell_in q p.
 Proof.
-  intros fuel s q s' Hne Hq H. unfold rs_add in H.
+  intros fuel s q s' Hne Hq H. unfold rs_add, RectSetDefs.rs_add in H.
   destruct (nonempty_bounds q Hq) as [Hq1 Hq2].
-  destruct (rs_add_b_covered _ _ _ _ _ _ _ Hne Hq1 Hq2 H) as [Ha Hb].
+  destruct (rs_add_at_covered _ _ _ _ _ _ _ _ Hne Hq1 Hq2 H) as [Ha Hb].
   split; [exact Ha|]. intros p. rewrite Hb, init_bounded_self_cell. tauto.
 Qed.
 
@@ -283,55 +303,16 @@ Theorem rs_add_list_covered : forall fuel l s s',
   all_nonempty s -> Forall nonempty l -> rs_add_list fuel s l = Some s' ->
   all_nonempty s' /\ forall p, covered s' p <-> covered s p \/ covered l p.
 Proof.
-  intros fuel l s s' Hne Hl H. unfold rs_add_list in H.
-  pose proof (fold_step_ok
-    (fun acc p => match acc with Some s' => rs_add fuel s' p | None => None end)
-    (fun q p => cell_in q p) nonempty) as Hfold.
-  cbv beta in Hfold.
-  destruct (Hfold (fun _ => eq_refl)) with (2 := Hne) (3 := Hl) (4 := H) as [Hne' Hcov'].
-  - intros s0 q s0' Hs0 Hq Hadd. exact (rs_add_covered fuel s0 q s0' Hs0 Hq Hadd).
-  - split; [exact Hne'|]. exact Hcov'.
+  intros fuel l s s' Hne Hl H. unfold rs_add_list, RectSetDefs.rs_add_list in H.
+  exact (fold_step_ok all_nonempty
+    (fun acc p => match acc with None => None | Some s' => RectSetDefs.rs_add fuel false s' p end)
+    (fun q p => cell_in q p) nonempty (fun _ => eq_refl)
+    (fun s0 q s0' Hs0 Hq Hadd => rs_add_covered fuel s0 q s0' Hs0 Hq Hadd)
+    l s s' Hne Hl H).
 Qed.
 
 (* ------------------------------------------------------------------------------------ *)
-(* 3. rs_contains (soundness of the answer [true]; no sortedness needed)                 *)
-
-(* the inner [fix scan] of rs_contains, with the recursive call abstracted *)
-Definition rs_contains_scan (rec : rect -> option bool) (q : rect) : rectset -> option bool :=
-  fix scan (l : rectset) : option bool :=
-  match l with
-  | [] => Some false
-  | x :: rest =>
-    if negb (r_intersects x q) then scan rest
-    else if (top q <? top x) || (left q <? left x) then Some false
-    else if (top q <? bottom x) && (bottom x <? bottom q) then
-      match rec (init_bounded (bottom x) (left q) (bottom q) (right q)) with
-      | None => None
-      | Some false => Some false
-      | Some true => Some (r_contains x (mkRect (top q) (left q) (bottom x - top q) (cols q)))
-      end
-    else Some (r_contains x q)
-  end.
-
-Lemma rs_contains_scan_nil rec q : rs_contains_scan rec q [] = Some false.
-Proof. reflexivity. Qed.
-
-Lemma rs_contains_scan_cons rec q x rest :
-  rs_contains_scan rec q (x :: rest) =
-    if negb (r_intersects x q) then rs_contains_scan rec q rest
-    else if (top q <? top x) || (left q <? left x) then Some false
-    else if (top q <? bottom x) && (bottom x <? bottom q) then
-      match rec (init_bounded (bottom x) (left q) (bottom q) (right q)) with
-      | None => None
-      | Some false => Some false
-      | Some true => Some (r_contains x (mkRect (top q) (left q) (bottom x - top q) (cols q)))
-      end
-    else Some (r_contains x q).
-Proof. reflexivity. Qed.
-
-Lemma rs_contains_unfold f s q :
-  rs_contains (S f) s q = rs_contains_scan (fun q' => rs_contains f s q') q s.
-Proof. reflexivity. Qed.
+(* 3. rs_contains (soundness of the answer [true]; no invariant needed)                  *)
 
 Lemma split_cell x q p :
   ((top q <? top x) || (left q <? left x)) = false ->
@@ -345,14 +326,13 @@ Qed.
 
 Lemma rs_contains_scan_sound (rec : rect -> option bool) (s : rectset) :
   (forall q', rec q' = Some true -> forall p, cell_in q' p -> covered s p) ->
-  forall q l, incl l s -> rs_contains_scan rec q l = Some true ->
+  forall q l, incl l s -> RectSetDefs.rs_contains_scan rec l q = Some true ->
   forall p, cell_in q p -> covered s p.
 Proof.
   intros Hrec q l.
-  induction l as [|x rest IH]; intros Hincl H p Hp.
-  - rewrite rs_contains_scan_nil in H. discriminate.
-  - rewrite rs_contains_scan_cons in H.
-    assert (Hx : In x s) by (apply Hincl; left; reflexivity).
+  induction l as [|x rest IH]; intros Hincl H p Hp; cbn [RectSetDefs.rs_contains_scan] in H.
+  - discriminate.
+  - assert (Hx : In x s) by (apply Hincl; left; reflexivity).
     assert (Hrest : incl rest s) by (intros y Hy; apply Hincl; right; exact Hy).
     destruct (negb (r_intersects x q)) eqn:E1.
     { exact (IH Hrest H p Hp). }
@@ -371,8 +351,9 @@ Qed.
 Theorem rs_contains_sound : forall fuel s q,
   rs_contains fuel s q = Some true -> forall p, cell_in q p -> covered s p.
 Proof.
+  unfold rs_contains.
   induction fuel as [|f IH]; intros s q H; [discriminate|].
-  rewrite rs_contains_unfold in H.
+  cbn [RectSetDefs.rs_contains] in H.
   eapply rs_contains_scan_sound; [|apply incl_refl|exact H].
   intros q' Hq'. exact (IH s q' Hq').
 Qed.
@@ -390,7 +371,7 @@ Qed.
 Lemma rs_translate_covered s d r p :
   covered (rs_translate s d r) p <-> covered s (fst p - d, snd p - r).
 Proof.
-  unfold rs_translate.
+  unfold rs_translate, RectSetDefs.rs_translate.
   induction s as [|x s IH]; cbn [map].
   - rewrite !covered_nil. tauto.
   - rewrite !covered_cons, IH, r_translate_cell. tauto.
@@ -401,143 +382,15 @@ Proof. unfold nonempty, r_translate; cbn [lines cols]. tauto. Qed.
 
 Lemma rs_translate_nonempty s d r : all_nonempty s -> all_nonempty (rs_translate s d r).
 Proof.
-  unfold all_nonempty, rs_translate. intros Hs.
+  unfold all_nonempty, rs_translate, RectSetDefs.rs_translate. intros Hs.
   induction Hs as [|x s Hx Hs IH]; cbn [map]; constructor.
   - apply r_translate_nonempty. exact Hx.
   - exact IH.
 Qed.
 
 (* ------------------------------------------------------------------------------------ *)
-(* 5. rs_clip                                                                            *)
-
-Lemma forall_true {A} (l : list A) : Forall (fun _ => True) l.
-Proof. induction l; constructor; auto. Qed.
-
-Theorem rs_clip_covered : forall s bounds s',
-  all_nonempty s -> rs_clip s bounds = Some s' ->
-  all_nonempty s' /\ forall p, covered s' p <-> covered s p /\ cell_in bounds p.
-Proof.
-  intros s bounds s' Hne H. unfold rs_clip in H.
-  pose proof (fold_step_ok
-    (fun acc x => match acc with
-                  | None => None
-                  | Some s' => match r_intersect x bounds with
-                               | Some y => rs_add rsfuel s' y
-                               | None => Some s'
-                               end
-                  end)
-    (fun x p => cell_in x p /\ cell_in bounds p) (fun _ => True)) as Hfold.
-  cbv beta in Hfold.
-  destruct (Hfold (fun _ => eq_refl)) with (4 := H) as [Hne' Hcov'].
-  - intros s0 x s0' Hs0 _ Hstep.
-    destruct (r_intersect x bounds) as [y|] eqn:Ei.
-    + destruct (intersect_some x bounds y Ei) as [Hy Hyc].
-      destruct (rs_add_covered rsfuel s0 y s0' Hs0 Hy Hstep) as [Ha Hb].
-      split; [exact Ha|]. intros p. rewrite Hb, Hyc. tauto.
-    + injection Hstep as <-. split; [exact Hs0|].
-      intros p. pose proof (intersect_none x bounds Ei p). tauto.
-  - constructor.
-  - apply forall_true.
-  - split; [exact Hne'|]. intros p. rewrite Hcov', covered_nil. unfold covered.
-    split.
-    + intros [[]|[x [Hin [Hc Hb]]]]. split; [exists x; auto|exact Hb].
-    + intros [[x [Hin Hc]] Hb]. right. exists x. auto.
-Qed.
-
-(* ------------------------------------------------------------------------------------ *)
-(* 6. rs_subtract / rs_sub_vis  (partial: see the comment before rs_subtract_covered_partial) *)
-
-Lemma rs_sub_from_covered_partial : forall fuel s i hole s',
-  all_nonempty s -> nonempty hole -> rs_sub_from fuel s i hole = Some s' ->
-  all_nonempty s' /\
-  (forall p, covered s p -> ~ cell_in hole p -> covered s' p) /\
-  (forall p, covered s' p -> covered s p).
-Proof.
-  induction fuel as [|f IH]; intros s i hole s' Hne Hh H; [discriminate|].
-  cbn [rs_sub_from] in H.
-  destruct (nth_error s i) as [x|] eqn:En.
-  2:{ injection H as <-. split; [exact Hne|]. split; auto. }
-  destruct (negb (r_intersects x hole)) eqn:Ei.
-  - exact (IH _ _ _ _ Hne Hh H).
-  - destruct (rs_add_list f (rs_delete s i) (r_subtract x hole)) as [s1|] eqn:Ea;
-      [|discriminate].
-    pose proof (all_nonempty_nth s i x Hne En) as Hx.
-    destruct (subtract_ok x hole Hx Hh) as [_ [HneL [_ HcovL]]].
-    destruct (rs_add_list_covered f _ _ _ (rs_delete_nonempty s i Hne) HneL Ea)
-      as [Hne1 Hcov1].
-    destruct (IH _ _ _ _ Hne1 Hh H) as [Hne' [Hsup Hsub]].
-    split; [exact Hne'|]. split.
-    + intros p Hp Hnh. apply Hsup; [|exact Hnh].
-      rewrite Hcov1, HcovL. rewrite (rs_delete_covered_nth s i x En p) in Hp. tauto.
-    + intros p Hp. apply Hsub in Hp. rewrite Hcov1, HcovL in Hp.
-      rewrite (rs_delete_covered_nth s i x En p). tauto.
-Qed.
-
-(* FULL statement (NOT proved here):
-     forall fuel s hole s', all_nonempty s -> nonempty hole ->
-       rs_subtract fuel s hole = Some s' ->
-       all_nonempty s' /\ forall p, covered s' p <-> covered s p /\ ~ cell_in hole p.
-   What is missing is the half  [covered s' p -> ~ cell_in hole p].  It does not follow
-   from region reasoning alone: the index loop never revisits positions < i, while rs_add
-   inserts at the cmprect-sorted position and may merge a piece with a not yet visited
-   element (which can still intersect the hole); that the merged rectangle lands at a
-   position >= i needs the sortedness invariant of the list (and that rs_add preserves
-   it), which this file does not develop. *)
-Theorem rs_subtract_covered_partial : forall fuel s hole s',
-  all_nonempty s -> nonempty hole -> rs_subtract fuel s hole = Some s' ->
-  all_nonempty s' /\
-  (forall p, covered s p -> ~ cell_in hole p -> covered s' p) /\
-  (forall p, covered s' p -> covered s p).
-Proof.
-  intros fuel s hole s' Hne Hh H. unfold rs_subtract in H.
-  exact (rs_sub_from_covered_partial fuel s O hole s' Hne Hh H).
-Qed.
-
-Lemma rs_sub_vis_none l : rs_sub_vis None l = None.
-Proof. unfold rs_sub_vis. apply fold_left_none. intros x. reflexivity. Qed.
-
-Lemma rs_sub_vis_cons s c l :
-  rs_sub_vis (Some s) (c :: l) =
-  rs_sub_vis (if w_vis (t_info c) then rs_subtract rsfuel s (w_rect (t_info c)) else Some s) l.
-Proof. reflexivity. Qed.
-
-(* partial for the same reason as rs_subtract_covered_partial: the half
-   [covered s' p -> p in no visible rectangle of l] is missing. *)
-Theorem rs_sub_vis_covered_partial : forall l s s',
-  all_nonempty s ->
-  Forall (fun c => w_vis (t_info c) = true -> nonempty (w_rect (t_info c))) l ->
-  rs_sub_vis (Some s) l = Some s' ->
-  all_nonempty s' /\
-  (forall p, covered s p ->
-             (forall c, In c l -> w_vis (t_info c) = true -> ~ cell_in (w_rect (t_info c)) p) ->
-             covered s' p) /\
-  (forall p, covered s' p -> covered s p).
-Proof.
-  induction l as [|c l IH]; intros s s' Hne Hl H.
-  - unfold rs_sub_vis in H; cbn [fold_left] in H. injection H as <-.
-    split; [exact Hne|]. split; auto.
-  - rewrite rs_sub_vis_cons in H.
-    inversion Hl as [|c' l' Hc Hl']; subst.
-    destruct (w_vis (t_info c)) eqn:Ev.
-    + destruct (rs_subtract rsfuel s (w_rect (t_info c))) as [s1|] eqn:Es.
-      2:{ rewrite rs_sub_vis_none in H. discriminate. }
-      destruct (rs_subtract_covered_partial rsfuel s _ s1 Hne (Hc eq_refl) Es)
-        as [Hne1 [Hsup1 Hsub1]].
-      destruct (IH s1 s' Hne1 Hl' H) as [Hne' [Hsup Hsub]].
-      split; [exact Hne'|]. split.
-      * intros p Hp Hout. apply Hsup.
-        -- apply Hsup1; [exact Hp|]. apply (Hout c); [left; reflexivity|exact Ev].
-        -- intros c0 Hin Hv. apply (Hout c0); [right; exact Hin|exact Hv].
-      * intros p Hp. apply Hsub1. apply Hsub. exact Hp.
-    + destruct (IH s s' Hne Hl' H) as [Hne' [Hsup Hsub]].
-      split; [exact Hne'|]. split.
-      * intros p Hp Hout. apply Hsup; [exact Hp|].
-        intros c0 Hin Hv. apply (Hout c0); [right; exact Hin|exact Hv].
-      * exact Hsub.
-Qed.
-
-(* ------------------------------------------------------------------------------------ *)
-(* 7. shift_damage                                                                       *)
+(* 5 + 7, generic part: rs_clip and shift_damage fold rs_add / rs_add_list from [], so    *)
+(* whatever invariant [I] add keeps (all_nonempty, or Inv) holds of their results        *)
 
 Definition shift_region (rc : rect) (d r : Z) (x : rect) (p : cell) : Prop :=
   (cell_in x p /\ ~ cell_in rc p) \/
@@ -586,38 +439,204 @@ Lemma shift_damage_unfold dmg rc d r :
   shift_damage dmg rc d r = fold_left (shift_step rc d r) dmg (Some []).
 Proof. reflexivity. Qed.
 
-Lemma shift_step_ok rc d r s x s' :
-  nonempty rc -> all_nonempty s -> nonempty x ->
-  shift_step rc d r (Some s) x = Some s' ->
-  all_nonempty s' /\ forall p, covered s' p <-> covered s p \/ shift_region rc d r x p.
-Proof.
-  intros Hrc Hs Hx H. unfold shift_step in H.
-  destruct ((bottom x <? top rc) || (top x >? bottom rc) || (right x <? left rc)
-            || (left x >? right rc)) eqn:Efar.
-  - destruct (rs_add_covered rsfuel s x s' Hs Hx H) as [Ha Hb].
-    split; [exact Ha|]. intros p. rewrite Hb. unfold shift_region.
-    pose proof (far_disjoint x rc Efar p) as D1.
-    pose proof (far_disjoint x rc Efar (fst p + d, snd p + r)) as D2.
-    tauto.
-  - destruct (rs_add_list rsfuel s (r_subtract x rc)) as [s1|] eqn:Ea; [|discriminate].
-    destruct (subtract_ok x rc Hx Hrc) as [_ [HneL [_ HcovL]]].
-    destruct (rs_add_list_covered rsfuel _ _ _ Hs HneL Ea) as [Hne1 Hcov1].
-    destruct (r_intersect x rc) as [ins|] eqn:Ei.
-    + destruct (intersect_some x rc ins Ei) as [_ Hins].
-      destruct (r_intersect (r_translate ins (- d) (- r)) rc) as [y|] eqn:Ej.
-      * destruct (intersect_some _ rc y Ej) as [Hy Hyc].
-        destruct (rs_add_covered rsfuel s1 y s' Hne1 Hy H) as [Ha Hb].
-        split; [exact Ha|]. intros p.
-        rewrite Hb, Hcov1, HcovL, Hyc, r_translate_neg_cell, Hins.
-        unfold shift_region. tauto.
-      * injection H as <-. split; [exact Hne1|]. intros p.
+Section FoldsOfAdds.
+  Variable I : rectset -> Prop.
+  Hypothesis I_nil : I [].
+  Hypothesis I_add : forall fuel s q s',
+    I s -> nonempty q -> rs_add fuel s q = Some s' ->
+    I s' /\ forall p, covered s' p <-> covered s p \/ cell_in q p.
+  Hypothesis I_add_list : forall fuel l s s',
+    I s -> Forall nonempty l -> rs_add_list fuel s l = Some s' ->
+    I s' /\ forall p, covered s' p <-> covered s p \/ covered l p.
+
+  Lemma rs_clip_gen : forall s bounds s',
+    rs_clip s bounds = Some s' ->
+    I s' /\ forall p, covered s' p <-> covered s p /\ cell_in bounds p.
+  Proof.
+    intros s bounds s' H. unfold rs_clip in H.
+    assert (Hstep : forall s0 x s0', I s0 -> True ->
+              match r_intersect x bounds with
+              | Some y => rs_add rsfuel s0 y
+              | None => Some s0
+              end = Some s0' ->
+              I s0' /\ forall p, covered s0' p <-> covered s0 p \/ (cell_in x p /\ cell_in bounds p)).
+    { intros s0 x s0' Hs0 _ Hst.
+      destruct (r_intersect x bounds) as [y|] eqn:Ei.
+      - destruct (intersect_some x bounds y Ei) as [Hy Hyc].
+        destruct (I_add rsfuel s0 y s0' Hs0 Hy Hst) as [Ha Hb].
+        split; [exact Ha|]. intros p. rewrite Hb, Hyc. tauto.
+      - injection Hst as <-. split; [exact Hs0|].
+        intros p. pose proof (intersect_none x bounds Ei p). tauto. }
+    destruct (fold_step_ok I
+      (fun acc x => match acc with
+                    | None => None
+                    | Some s' => match r_intersect x bounds with
+                                 | Some y => rs_add rsfuel s' y
+                                 | None => Some s'
+                                 end
+                    end)
+      (fun x p => cell_in x p /\ cell_in bounds p) (fun _ => True)
+      (fun _ => eq_refl) Hstep s [] s' I_nil (forall_true s) H) as [HI' Hcov'].
+    split; [exact HI'|]. intros p. rewrite Hcov', covered_nil. unfold covered.
+    split.
+    - intros [[]|[x [Hin [Hc Hb]]]]. split; [exists x; auto|exact Hb].
+    - intros [[x [Hin Hc]] Hb]. right. exists x. auto.
+  Qed.
+
+  Lemma shift_step_gen rc d r s x s' :
+    nonempty rc -> I s -> nonempty x ->
+    shift_step rc d r (Some s) x = Some s' ->
+    I s' /\ forall p, covered s' p <-> covered s p \/ shift_region rc d r x p.
+  Proof.
+    intros Hrc Hs Hx H. unfold shift_step in H.
+    destruct ((bottom x <? top rc) || (top x >? bottom rc) || (right x <? left rc)
+              || (left x >? right rc)) eqn:Efar.
+    - destruct (I_add rsfuel s x s' Hs Hx H) as [Ha Hb].
+      split; [exact Ha|]. intros p. rewrite Hb. unfold shift_region.
+      pose proof (far_disjoint x rc Efar p) as D1.
+      pose proof (far_disjoint x rc Efar (fst p + d, snd p + r)) as D2.
+      tauto.
+    - destruct (rs_add_list rsfuel s (r_subtract x rc)) as [s1|] eqn:Ea; [|discriminate].
+      destruct (subtract_ok x rc Hx Hrc) as [_ [HneL [_ HcovL]]].
+      destruct (I_add_list rsfuel _ _ _ Hs HneL Ea) as [Hne1 Hcov1].
+      destruct (r_intersect x rc) as [ins|] eqn:Ei.
+      + destruct (intersect_some x rc ins Ei) as [_ Hins].
+        destruct (r_intersect (r_translate ins (- d) (- r)) rc) as [y|] eqn:Ej.
+        * destruct (intersect_some _ rc y Ej) as [Hy Hyc].
+          destruct (I_add rsfuel s1 y s' Hne1 Hy H) as [Ha Hb].
+          split; [exact Ha|]. intros p.
+          rewrite Hb, Hcov1, HcovL, Hyc, r_translate_neg_cell, Hins.
+          unfold shift_region. tauto.
+        * injection H as <-. split; [exact Hne1|]. intros p.
+          rewrite Hcov1, HcovL. unfold shift_region.
+          pose proof (intersect_none _ rc Ej p) as D1.
+          rewrite r_translate_neg_cell, Hins in D1. tauto.
+      + injection H as <-. split; [exact Hne1|]. intros p.
         rewrite Hcov1, HcovL. unfold shift_region.
-        pose proof (intersect_none _ rc Ej p) as D1.
-        rewrite r_translate_neg_cell, Hins in D1. tauto.
-    + injection H as <-. split; [exact Hne1|]. intros p.
-      rewrite Hcov1, HcovL. unfold shift_region.
-      pose proof (intersect_none x rc Ei (fst p + d, snd p + r)) as D1. tauto.
+        pose proof (intersect_none x rc Ei (fst p + d, snd p + r)) as D1. tauto.
+  Qed.
+
+  Lemma shift_damage_gen : forall dmg rc d r dmg',
+    all_nonempty dmg -> nonempty rc -> shift_damage dmg rc d r = Some dmg' ->
+    I dmg' /\
+    forall p, covered dmg' p <->
+              (covered dmg p /\ ~ cell_in rc p) \/
+              (cell_in rc p /\ cell_in rc (fst p + d, snd p + r) /\
+               covered dmg (fst p + d, snd p + r)).
+  Proof.
+    intros dmg rc d r dmg' Hne Hrc H. rewrite shift_damage_unfold in H.
+    destruct (fold_step_ok I (shift_step rc d r) (shift_region rc d r) nonempty
+                (fun _ => eq_refl)
+                (fun s x s' Hs Hx Hst => shift_step_gen rc d r s x s' Hrc Hs Hx Hst)
+                dmg [] dmg' I_nil Hne H) as [HI' Hcov'].
+    split; [exact HI'|]. intros p. rewrite Hcov', covered_nil.
+    unfold covered, shift_region. split.
+    - intros [[]|[x [Hin [[Hc Hn]|[H1 [H2 H3]]]]]].
+      + left. split; [exists x; auto|exact Hn].
+      + right. split; [exact H1|]. split; [exact H2|exists x; auto].
+    - intros [[[x [Hin Hc]] Hn]|[H1 [H2 [x [Hin Hc]]]]]; right; exists x.
+      + split; [exact Hin|left; auto].
+      + split; [exact Hin|right; auto].
+  Qed.
+End FoldsOfAdds.
+
+(* ------------------------------------------------------------------------------------ *)
+(* 5. rs_clip                                                                            *)
+
+Theorem rs_clip_covered : forall s bounds s',
+  all_nonempty s -> rs_clip s bounds = Some s' ->
+  all_nonempty s' /\ forall p, covered s' p <-> covered s p /\ cell_in bounds p.
+Proof.
+  intros s bounds s' _ H.
+  exact (rs_clip_gen all_nonempty (Forall_nil _) rs_add_covered s bounds s' H).
 Qed.
+
+(* ------------------------------------------------------------------------------------ *)
+(* 6. rs_subtract / rs_sub_vis without the invariant (partial; the exact statements      *)
+(*    under Inv are rs_subtract_exact / rs_sub_vis_exact of section 8)                   *)
+
+Lemma rs_subtract_loop_covered_partial : forall lfuel fuel s i hole s',
+  all_nonempty s -> nonempty hole ->
+  RectSetDefs.rs_subtract_loop lfuel fuel false s i hole = Some s' ->
+  all_nonempty s' /\
+  (forall p, covered s p -> ~ cell_in hole p -> covered s' p) /\
+  (forall p, covered s' p -> covered s p).
+Proof.
+  induction lfuel as [|f IH]; intros fuel s i hole s' Hne Hh H; [discriminate|].
+  cbn [RectSetDefs.rs_subtract_loop] in H.
+  destruct (nth_error s i) as [x|] eqn:En.
+  2:{ injection H as <-. split; [exact Hne|]. split; auto. }
+  destruct (negb (r_intersects x hole)) eqn:Ei.
+  - exact (IH _ _ _ _ _ Hne Hh H).
+  - destruct (RectSetDefs.rs_add_list fuel false (RectSetDefs.rs_delete s i) (r_subtract x hole))
+      as [s1|] eqn:Ea; [|discriminate].
+    pose proof (all_nonempty_nth s i x Hne En) as Hx.
+    destruct (subtract_ok x hole Hx Hh) as [_ [HneL [_ HcovL]]].
+    destruct (rs_add_list_covered fuel _ _ _ (rs_delete_nonempty s i Hne) HneL Ea)
+      as [Hne1 Hcov1].
+    destruct (IH _ _ _ _ _ Hne1 Hh H) as [Hne' [Hsup Hsub]].
+    split; [exact Hne'|]. split.
+    + intros p Hp Hnh. apply Hsup; [|exact Hnh].
+      rewrite Hcov1, HcovL. rewrite (rs_delete_covered_nth s i x En p) in Hp. tauto.
+    + intros p Hp. apply Hsub in Hp. rewrite Hcov1, HcovL in Hp.
+      rewrite (rs_delete_covered_nth s i x En p). tauto.
+Qed.
+
+(* Without Inv, only this much holds: the half [covered s' p -> ~ cell_in hole p] needs the
+   index argument of RectSetSubtract.v, which rests on sortedness and separation. *)
+Theorem rs_subtract_covered_partial : forall fuel s hole s',
+  all_nonempty s -> nonempty hole -> rs_subtract fuel s hole = Some s' ->
+  all_nonempty s' /\
+  (forall p, covered s p -> ~ cell_in hole p -> covered s' p) /\
+  (forall p, covered s' p -> covered s p).
+Proof.
+  intros fuel s hole s' Hne Hh H. unfold rs_subtract, RectSetDefs.rs_subtract in H.
+  exact (rs_subtract_loop_covered_partial fuel fuel s O hole s' Hne Hh H).
+Qed.
+
+Lemma rs_sub_vis_none l : rs_sub_vis None l = None.
+Proof. unfold rs_sub_vis. apply fold_left_none. intros x. reflexivity. Qed.
+
+Lemma rs_sub_vis_cons s c l :
+  rs_sub_vis (Some s) (c :: l) =
+  rs_sub_vis (if w_vis (t_info c) then rs_subtract rsfuel s (w_rect (t_info c)) else Some s) l.
+Proof. reflexivity. Qed.
+
+Theorem rs_sub_vis_covered_partial : forall l s s',
+  all_nonempty s ->
+  Forall (fun c => w_vis (t_info c) = true -> nonempty (w_rect (t_info c))) l ->
+  rs_sub_vis (Some s) l = Some s' ->
+  all_nonempty s' /\
+  (forall p, covered s p ->
+             (forall c, In c l -> w_vis (t_info c) = true -> ~ cell_in (w_rect (t_info c)) p) ->
+             covered s' p) /\
+  (forall p, covered s' p -> covered s p).
+Proof.
+  induction l as [|c l IH]; intros s s' Hne Hl H.
+  - unfold rs_sub_vis in H; cbn [fold_left] in H. injection H as <-.
+    split; [exact Hne|]. split; auto.
+  - rewrite rs_sub_vis_cons in H.
+    inversion Hl as [|c' l' Hc Hl']; subst.
+    destruct (w_vis (t_info c)) eqn:Ev.
+    + destruct (rs_subtract rsfuel s (w_rect (t_info c))) as [s1|] eqn:Es.
+      2:{ rewrite rs_sub_vis_none in H. discriminate. }
+      destruct (rs_subtract_covered_partial rsfuel s _ s1 Hne (Hc eq_refl) Es)
+        as [Hne1 [Hsup1 Hsub1]].
+      destruct (IH s1 s' Hne1 Hl' H) as [Hne' [Hsup Hsub]].
+      split; [exact Hne'|]. split.
+      * intros p Hp Hout. apply Hsup.
+        -- apply Hsup1; [exact Hp|]. apply (Hout c); [left; reflexivity|exact Ev].
+        -- intros c0 Hin Hv. apply (Hout c0); [right; exact Hin|exact Hv].
+      * intros p Hp. apply Hsub1. apply Hsub. exact Hp.
+    + destruct (IH s s' Hne Hl' H) as [Hne' [Hsup Hsub]].
+      split; [exact Hne'|]. split.
+      * intros p Hp Hout. apply Hsup; [exact Hp|].
+        intros c0 Hin Hv. apply (Hout c0); [right; exact Hin|exact Hv].
+      * exact Hsub.
+Qed.
+
+(* ------------------------------------------------------------------------------------ *)
+(* 7. shift_damage                                                                       *)
 
 Theorem shift_damage_covered : forall dmg rc d r dmg',
   all_nonempty dmg -> nonempty rc -> shift_damage dmg rc d r = Some dmg' ->
@@ -627,17 +646,112 @@ Theorem shift_damage_covered : forall dmg rc d r dmg',
             (cell_in rc p /\ cell_in rc (fst p + d, snd p + r) /\
              covered dmg (fst p + d, snd p + r)).
 Proof.
-  intros dmg rc d r dmg' Hne Hrc H. rewrite shift_damage_unfold in H.
-  destruct (fold_step_ok (shift_step rc d r) (shift_region rc d r) nonempty
-              (fun _ => eq_refl)) with (3 := Hne) (4 := H) as [Hne' Hcov'].
-  - intros s x s' Hs Hx Hstep. exact (shift_step_ok rc d r s x s' Hrc Hs Hx Hstep).
-  - constructor.
-  - split; [exact Hne'|]. intros p. rewrite Hcov', covered_nil.
-    unfold covered, shift_region. split.
-    + intros [[]|[x [Hin [[Hc Hn]|[H1 [H2 H3]]]]]].
-      * left. split; [exists x; auto|exact Hn].
-      * right. split; [exact H1|]. split; [exact H2|exists x; auto].
-    + intros [[[x [Hin Hc]] Hn]|[H1 [H2 [x [Hin Hc]]]]]; right; exists x.
-      * split; [exact Hin|left; auto].
-      * split; [exact Hin|right; auto].
+  exact (shift_damage_gen all_nonempty (Forall_nil _) rs_add_covered rs_add_list_covered).
 Qed.
+
+(* ------------------------------------------------------------------------------------ *)
+(* 8. Exact facts under the C05 invariant Inv (members non-empty, pairwise separated and  *)
+(*    not vertically mergeable, sorted by (top, left)), from the C05 theorems             *)
+
+Lemma inv_nil : Inv [].
+Proof. exact RectSetProofs.Inv_nil. Qed.
+
+Lemma inv_disjoint s : Inv s -> pairwise_disjoint s /\ all_nonempty s.
+Proof.
+  intros H. destruct (RectSetHistory.inv_demands s H) as [H1 [H2 _]]. split; assumption.
+Qed.
+
+Lemma inv_all_nonempty s : Inv s -> all_nonempty s.
+Proof. intros H. apply (inv_disjoint s H). Qed.
+
+Theorem rs_add_inv : forall fuel s q s',
+  Inv s -> nonempty q -> rs_add fuel s q = Some s' ->
+  Inv s' /\ forall p, covered s' p <-> covered s p \/ cell_in q p.
+Proof.
+  intros fuel s q s' Hinv Hq H. exact (RectSetProofs.rs_add_ok fuel s q s' Hinv Hq H).
+Qed.
+
+Theorem rs_add_list_inv : forall fuel l s s',
+  Inv s -> Forall nonempty l -> rs_add_list fuel s l = Some s' ->
+  Inv s' /\ forall p, covered s' p <-> covered s p \/ covered l p.
+Proof.
+  intros fuel l s s' Hinv Hl H. exact (RectSetProofs.rs_add_list_ok fuel l s s' Hinv Hl H).
+Qed.
+
+Theorem rs_subtract_exact : forall fuel s hole s',
+  Inv s -> nonempty hole -> rs_subtract fuel s hole = Some s' ->
+  Inv s' /\ forall p, covered s' p <-> covered s p /\ ~ cell_in hole p.
+Proof.
+  intros fuel s hole s' Hinv Hh H.
+  exact (RectSetSubtract.rs_subtract_ok fuel s hole s' Hinv Hh H).
+Qed.
+
+Lemma rs_translate_inv s d r : Inv s -> Inv (rs_translate s d r).
+Proof. intros H. exact (proj1 (RectSetHistory.rs_translate_ok s d r H)). Qed.
+
+(* exactness of contains under the invariant (both answers) *)
+Theorem rs_contains_exact : forall fuel s q ans,
+  Inv s -> nonempty q -> rs_contains fuel s q = Some ans ->
+  (ans = true <-> forall p, cell_in q p -> covered s p).
+Proof.
+  intros fuel s q ans Hinv Hq H.
+  exact (RectSetQueries.rs_contains_ok s Hinv fuel q ans Hq H).
+Qed.
+
+(* rs_clip folds adds from []: the result satisfies Inv whatever s is *)
+Theorem rs_clip_inv_any : forall s bounds s',
+  rs_clip s bounds = Some s' ->
+  Inv s' /\ forall p, covered s' p <-> covered s p /\ cell_in bounds p.
+Proof. exact (rs_clip_gen Inv inv_nil rs_add_inv). Qed.
+
+Theorem rs_clip_inv : forall s bounds s',
+  Inv s -> rs_clip s bounds = Some s' ->
+  Inv s' /\ forall p, covered s' p <-> covered s p /\ cell_in bounds p.
+Proof. intros s bounds s' _ H. exact (rs_clip_inv_any s bounds s' H). Qed.
+
+Theorem rs_sub_vis_exact : forall l s s',
+  Inv s ->
+  Forall (fun c => w_vis (t_info c) = true -> nonempty (w_rect (t_info c))) l ->
+  rs_sub_vis (Some s) l = Some s' ->
+  Inv s' /\
+  forall p, covered s' p <->
+            covered s p /\
+            forall c, In c l -> w_vis (t_info c) = true -> ~ cell_in (w_rect (t_info c)) p.
+Proof.
+  induction l as [|c l IH]; intros s s' Hinv Hl H.
+  - unfold rs_sub_vis in H; cbn [fold_left] in H. injection H as <-.
+    split; [exact Hinv|]. intros p. split.
+    + intros Hp. split; [exact Hp|]. intros c [].
+    + intros [Hp _]. exact Hp.
+  - rewrite rs_sub_vis_cons in H.
+    inversion Hl as [|c' l' Hc Hl']; subst.
+    destruct (w_vis (t_info c)) eqn:Ev.
+    + destruct (rs_subtract rsfuel s (w_rect (t_info c))) as [s1|] eqn:Es.
+      2:{ rewrite rs_sub_vis_none in H. discriminate. }
+      destruct (rs_subtract_exact rsfuel s _ s1 Hinv (Hc eq_refl) Es) as [Hinv1 Hcov1].
+      destruct (IH s1 s' Hinv1 Hl' H) as [Hinv' Hcov'].
+      split; [exact Hinv'|]. intros p. rewrite Hcov', Hcov1. split.
+      * intros [[Hp Hn] Hout]. split; [exact Hp|].
+        intros c0 [<-|Hin] Hv; [exact Hn|exact (Hout c0 Hin Hv)].
+      * intros [Hp Hout]. split; [split|].
+        -- exact Hp.
+        -- apply (Hout c); [left; reflexivity|exact Ev].
+        -- intros c0 Hin Hv. apply (Hout c0); [right; exact Hin|exact Hv].
+    + destruct (IH s s' Hinv Hl' H) as [Hinv' Hcov'].
+      split; [exact Hinv'|]. intros p. rewrite Hcov'. split.
+      * intros [Hp Hout]. split; [exact Hp|].
+        intros c0 [<-|Hin] Hv; [congruence|exact (Hout c0 Hin Hv)].
+      * intros [Hp Hout]. split; [exact Hp|].
+        intros c0 Hin Hv. apply (Hout c0); [right; exact Hin|exact Hv].
+Qed.
+
+(* shift_damage folds adds from []: the result satisfies Inv whatever the order/shape of dmg
+   (its members only have to be non-empty) *)
+Theorem shift_damage_inv : forall dmg rc d r dmg',
+  all_nonempty dmg -> nonempty rc -> shift_damage dmg rc d r = Some dmg' ->
+  Inv dmg' /\
+  forall p, covered dmg' p <->
+            (covered dmg p /\ ~ cell_in rc p) \/
+            (cell_in rc p /\ cell_in rc (fst p + d, snd p + r) /\
+             covered dmg (fst p + d, snd p + r)).
+Proof. exact (shift_damage_gen Inv inv_nil rs_add_inv rs_add_list_inv). Qed.
